@@ -20,6 +20,7 @@ class Rec:
         self.writes = []      # (tick_no, {register: value}) per write_batch call
         self.uod = []         # (tick_no, command, instance_id, event)  event in init/exec/final
         self.tick_no = -1
+        self.now = T0         # engine time of the current tick (for UOD callbacks that stamp tag values)
 
 
 def make_uod(rec: Rec, durations: dict, out_values: dict | None = None, fail_at: dict | None = None):
@@ -67,7 +68,7 @@ def make_uod(rec: Rec, durations: dict, out_values: dict | None = None, fail_at:
                 v = out_values.get("SetOut1")
                 if v is None:
                     v = int(kw.get("value") or 0)
-                cmd.context.tags["Out1"].set_value(v, T0)
+                cmd.context.tags["Out1"].set_value(v, rec.now)
             if it + 1 >= durations.get(name, 1):
                 cmd.set_complete()
 
@@ -122,6 +123,7 @@ class Rig:
     def tick(self, dt=0.1):
         self.now = self.now + dt
         self.rec.tick_no = self.engine._tick_number + 1
+        self.rec.now = self.now
         try:
             self.engine.tick(self.now, dt)
         except Exception as ex:  # never BaseException (CrossHair control flow)
